@@ -40,9 +40,9 @@ theorem write_performed_in_user (s : Sim) (a : W) (d : Word) (c : Ctx) (hp : c.p
 /-- a rejected access leaves memory, registers, devices, PC, PSR and the observer unchanged -/
 theorem user_violation_changes_nothing (s : Sim) (a : W) (d : Word) (h : userMode s) (hu : inUser a = false) :
     (∃ s', readMem a s.defaultCtx s = (.error (.err .accessViolation), s') ∧ s'.mem = s.mem ∧ s'.regs = s.regs ∧
-        s'.dev = s.dev ∧ s'.pc = s.pc ∧ s'.psr = s.psr ∧ s'.observer = s.observer) ∧
+        s'.dev = s.dev ∧ s'.pc = s.pc ∧ s'.psr = s.psr ∧ s'.observer = s.observer ∧ s'.prefetch = s.prefetch) ∧
     (∃ s', writeMem a d s.defaultCtx s = (.error (.err .accessViolation), s') ∧ s'.mem = s.mem ∧ s'.regs = s.regs ∧
-        s'.dev = s.dev ∧ s'.pc = s.pc ∧ s'.psr = s.psr ∧ s'.observer = s.observer) :=
+        s'.dev = s.dev ∧ s'.pc = s.pc ∧ s'.psr = s.psr ∧ s'.observer = s.observer ∧ s'.prefetch = s.prefetch) :=
   ⟨C08.readMem_violation s a _ (user_ctx_unprivileged s h) hu, C08.writeMem_violation s a d _ (user_ctx_unprivileged s h) hu⟩
 
 /-- a user-mode fetch outside user space fails before anything is executed (virtual traps: reported with PC unchanged) -/
